@@ -79,6 +79,14 @@ def main(argv):
             res.append(run_check(prop, 'thorough', wt, out))
         meta['checks'] = {prop: res}
         meta['detected'] = any(r['exit'] == 1 and r['violations'] for r in res)
+        meta['detected_by'] = [prop] if meta['detected'] else []
+        for a in argv:
+            if a.startswith('--also='):
+                for pid in a[len('--also='):].split(','):
+                    r = run_check(pid, 'quick', wt, out)
+                    meta['checks'][pid] = [r]
+                    if r['exit'] == 1 and r['violations']:
+                        meta['detected_by'].append(pid)
         if others:
             man = json.load(open(os.path.join(VERIF, 'MANIFEST.json')))
             for c in man['checks']:
